@@ -1,9 +1,48 @@
 import SoundeventModel.Ops.Common
+import SoundeventModel.Ops.C16
+import SoundeventModel.Raster
 namespace SE.Ops.C20
-open Lean SE
+open Lean SE SE.Axis SE.Raster SE.Ops.C16
 
-def handle (op : String) (_a : Json) : Except String Json := do
+def toRGeom (g : Geom) : Except String RGeom :=
+  match g with
+  | .boundingBox s l e h => .ok (.box s l e h)
+  | .timeInterval s e => .ok (.interval s e)
+  | _ => .error s!"C20 model covers box-like geometries only, got {g.tag}"
+
+def getValues (j : Json) : Except String Values :=
+  match j with
+  | .arr xs => do return .many (← xs.toList.mapM (·.getInt?))
+  | _ => do return .one (← j.getInt?)
+
+def gridJ (g : Grid) : Json := arrJ (g.map (fun row => arrJ (row.map intJ)))
+
+def rasterJ (r : Raster) : Json :=
+  Json.mkObj [("dims", arrJ [Json.str "time", Json.str "frequency"]), ("time", ratsJ r.time),
+              ("freq", ratsJ r.freq), ("grid", gridJ r.grid)]
+
+def handle (op : String) (a : Json) : Except String Json := do
   match op with
+  | "rasterize" =>
+    let t : Template := { timeFirst := ← fldBool a "time_first", time := ← getRatList (← fld a "time"),
+                          freq := ← getRatList (← fld a "freq") }
+    let geoms ← (← fldArr a "geoms").mapM (fun j => do toRGeom (← getGeom j))
+    return aexceptJ rasterJ (rasterize t geoms (← getValues (← fld a "values")) (← fldInt a "fill")
+      (← fldBool a "all_touched"))
+  | "bin_of" =>
+    return natJ (binOf (← getRatList (← fld a "coords")) (← fldRat a "v"))
+  | "box_rule" =>
+    -- the contract assumed of rasterio: cells burnt for one integer-cornered box on an nx × ny raster
+    match ← getNatList (← fld a "box") with
+    | [x0, y0, x1, y1] =>
+      return gridJ (rasterBoxes (← fldNat a "nx") (← fldNat a "ny") [⟨x0, y0, x1, y1, 1⟩] 0)
+    | _ => .error "box arity"
+  | "centre_rule" =>
+    let rings ← getRings (← fld a "rings")
+    let burnt ← (← fldArr a "burnt").mapM (fun row => do (← getArr row).mapM (·.getBool?))
+    let bad := centreRuleViolations (← fldNat a "nx") (← fldNat a "ny") rings burnt
+    return arrJ (bad.map (fun p => natsJ [p.1, p.2]))
+  | "noop" => return Json.null
   | _ => .error s!"C20: unknown op {op}"
 
 end SE.Ops.C20
